@@ -88,7 +88,7 @@ def run(rec, F):
         rec.inst(R, "op_check_handler: jump exactly when not a subclass", ok=okj, loc=ch.loc)
         if not okj:
             rec.finding(R, "F4.exc/filter-jump", "op_check_handler does not skip the catch block exactly on the not-a-subclass edge", loc=ch.loc, fn=ch.path)
-        errs = [bi for bi, t in ch.calls() if lastseg(t["f"]).startswith("runtime_error")]
+        errs = [bi for bi, t in ch.calls() if lastseg(t["f"]).startswith("runtime_error") or (sem.is_error_call(F, t) and lastseg(t["f"]) not in sem.ERROR_BASE)]
         ewh = [bi for bi, t in ch.calls() if lastseg(t["f"]) == "error_while_handling"]
         ok = bool(errs) and all(any(ch.dominates(e, b) for e in ewh) for b in errs)
         rec.inst(R, "op_check_handler: error_while_handling before raising", ok=ok, loc=ch.loc)
